@@ -82,7 +82,7 @@ def make_berte(cfg):
             'commit_base_url': 'https://h/{commit_id}'}
     data.update(cfg['settings'])
     with open(path, 'w') as f:
-        yaml.safe_dump(data, f)
+        yaml.safe_dump(data, f, sort_keys=False)
     settings = setup_settings(path)
     settings['robot_password'] = 'pw'
     settings['backtrace'] = True
@@ -235,6 +235,21 @@ def ref_gate(cfg, opts, author, approvals, participants, changes):
 
 # ---------------------------------------------------------------------------
 
+def gen_author_options(rng, author, keys, others=('bob', 'carol', 'lead',
+                                                  'dave')):
+    """pr_author_options: the author with a list of its own (maybe empty,
+    maybe absent) among other users with other lists, in a drawn order."""
+    items = []
+    if rng.random() < 0.8:
+        items.append((author, rng.sample(keys, rng.choice(
+            [0, 1, 1, min(2, len(keys))]))))
+    for o in rng.sample(list(others), rng.choice([0, 1, 2])):
+        items.append((o, rng.sample(keys, rng.choice(
+            [1, min(2, len(keys))]))))
+    rng.shuffle(items)
+    return dict(items)
+
+
 def gen_config(rng):
     peers = rng.choice([0, 1, 2, 3])
     leaders_pool = rng.choice([[], ['lead'], ['lead', 'alice'],
@@ -247,11 +262,10 @@ def gen_config(rng):
           'project_leaders': leaders_pool,
           'admins': rng.choice([['root'], ['root', 'alice'],
                                 ['root', 'carol']])}
-    if rng.random() < 0.25:
-        st['pr_author_options'] = {'alice': rng.sample(
-            ['bypass_author_approval', 'bypass_peer_approval',
-             'bypass_leader_approval', 'bypass_build_status'],
-            rng.choice([1, 2]))}
+    if rng.random() < 0.3:
+        st['pr_author_options'] = gen_author_options(
+            rng, 'alice', ['bypass_author_approval', 'bypass_peer_approval',
+                           'bypass_leader_approval', 'bypass_build_status'])
     cmd = []
     if rng.random() < 0.2:
         # command line: bypasses only (approve / unanimity come from
